@@ -188,7 +188,12 @@ def run_cons(case, viol, obs):
                             mech = "/edge-cap+product-bound"
                 except ref.RefTimeout:
                     pass
-            viol.append({"sig": f"C10/constraints/{cls}/unsolved-although-planted-solution-satisfies-them" + mech + ("/node" if node else ""), "msg": f"{desc}"})
+            if cls in W.ERR and all((f_ or 0) == 0 for f_ in base["flow"].values()):
+                # every weight is zero: the error models are specified for 'non-negative, not all zero' weights (C07/C08), and this property speaks
+                # about SOLVED models - no feasibility verdict on the degenerate instance (false alarm of the thorough tier, seed 4; DESIGN 5.3)
+                obs["c10.all_zero_weights_no_feasibility_verdict"] += 1
+            else:
+                viol.append({"sig": f"C10/constraints/{cls}/unsolved-although-planted-solution-satisfies-them" + mech + ("/node" if node else ""), "msg": f"{desc}"})
         return None, False, None
     routes = models.routes_of(res["sol"])
     for c in cons:
